@@ -204,6 +204,9 @@ func C08(c *Ctx) {
 		c.R.Break("C08-R2: no AddEmitted call found in package ecmascript")
 	}
 
+	c.R.Rule("C08-R8", "E3", "a successful Exec hands back the execution that collected the emitted messages", 1)
+	c08ExecHandsBack(c, "C08-R8")
+	c08WalkHandedBack(c, "C08-R5")
 	c08Guards(c)
 	c08Order(c)
 	c08Enumerations(c)
